@@ -504,6 +504,9 @@ func runC01Rest(c *Ctx) {
 	checkFillCountsEveryRead(c, "R19")
 	checkReadReplyTruthTable(c, "R20")
 	checkNilOnlyWhenComplete(c, "R21")
+	// R22 (shared with C18.R3): with the allocator the page that holds a DATA reply is released only after the reply has
+	// been written — released before, it is handed out again and the bytes on the wire are another packet's
+	c.withOnly("R3", "R22", func() { runC18(c) })
 	// R12: the count equals the bytes moved — not when the chunk offsets wrapped (shared with C12.R10)
 	c.withRule("R12", func() { checkChunkOffsetsCannotWrap(c, "R10") })
 	checkAppendStartsAtEnd(c, "R13")
@@ -1587,32 +1590,43 @@ func narrowingIn(p *Program, v ssa.Value) *ssa.Convert {
 // next Read) goes around the addition.
 func checkFillCountsEveryRead(c *Ctx, rule string) {
 	p := c.P
-	fn := p.Func("readFull")
-	if fn == nil {
-		c.missing(rule, "readFull")
-		return
+	// the helper, or the fill loops written in place where it was inlined: every Read of the source in the client's File code
+	var hosts []*ssa.Function
+	if fn := p.Func("readFull"); fn != nil {
+		hosts = append(hosts, fn)
 	}
-	reads := callsWhere(fn, func(cc *ssa.CallCommon) bool { return cc.IsInvoke() && cc.Method.Name() == "Read" })
-	for i, in := range reads {
-		call, ok := in.(*ssa.Call)
-		if !ok {
-			continue
-		}
-		var cnt *ssa.Extract
-		for _, r := range *call.Referrers() {
-			if ex, ok := r.(*ssa.Extract); ok && ex.Index == 0 {
-				cnt = ex
+	for _, fn := range fileFuncs(p) {
+		hosts = append(hosts, fn)
+	}
+	total := 0
+	for _, fn := range hosts {
+		fn := fn
+		reads := callsWhere(fn, func(cc *ssa.CallCommon) bool {
+			return cc.IsInvoke() && cc.Method.Name() == "Read" && typeName(cc.Value.Type()) == "Reader"
+		})
+		for i, in := range reads {
+			in := in
+			call, ok := in.(*ssa.Call)
+			if !ok {
+				continue
 			}
+			total++
+			var cnt *ssa.Extract
+			for _, r := range *call.Referrers() {
+				if ex, ok := r.(*ssa.Extract); ok && ex.Index == 0 {
+					cnt = ex
+				}
+			}
+			isAdd := func(x ssa.Instruction) bool {
+				b, ok := x.(*ssa.BinOp)
+				return ok && b.Op == token.ADD && cnt != nil && (b.X == ssa.Value(cnt) || b.Y == ssa.Value(cnt))
+			}
+			isEnd := func(x ssa.Instruction) bool { return isReturn(x) || x == in }
+			c.check(cnt != nil && !reachAvoiding(fn, in, isEnd, isAdd), rule, fmt.Sprintf("%s counts the bytes of Read #%d on every path", fnName(fn), i+1), p.Pos(in.Pos()),
+				"n += nn before the error is looked at", "the fill loop can return (or read again) without adding the count of a Read: bytes that the source delivered together with its error are consumed but not counted, and never sent")
 		}
-		isAdd := func(x ssa.Instruction) bool {
-			b, ok := x.(*ssa.BinOp)
-			return ok && b.Op == token.ADD && cnt != nil && (b.X == ssa.Value(cnt) || b.Y == ssa.Value(cnt))
-		}
-		isEnd := func(x ssa.Instruction) bool { return isReturn(x) || x == in }
-		c.check(cnt != nil && !reachAvoiding(fn, in, isEnd, isAdd), rule, fmt.Sprintf("readFull counts the bytes of Read #%d on every path", i+1), p.Pos(in.Pos()),
-			"n += nn before the error is looked at", "the fill helper can return (or read again) without adding the count of a Read: bytes that the source delivered together with its error are consumed but not counted, and never sent")
 	}
-	c.check(len(reads) >= 1, rule, "readFull reads the source", p.Pos(fn.Pos()), fmt.Sprintf("%d Read calls", len(reads)), "readFull no longer calls Read")
+	c.check(total >= 1, rule, "reads of the source", "?", fmt.Sprintf("%d Read calls", total), "no Read of the source found in readFull or the File methods")
 }
 
 // checkReadReplyTruthTable (C01.R20): a server's ReadAt may return bytes together with io.EOF (every file whose length is
